@@ -237,20 +237,40 @@ fn sort(seed: u64, cases: usize, out: &mut impl Write) {
     let mut rng = Rng(seed);
     for case in 0..cases {
         let by_row = rng.chance(50);
-        let long = 24 + rng.below(140);
-        let short = 1 + rng.below(3);
+        // mostly 24..163; sometimes the gap 5..23 below it; sometimes thousands (swap traces beyond any small buffer)
+        let huge = rng.chance(8);
+        let long = if huge { 1026 + rng.below(1500) } else if rng.chance(15) { 5 + rng.below(19) } else { 24 + rng.below(140) };
+        let short = 1 + rng.below(if huge { 5 } else { 3 });
         let (nc, nr) = if by_row { (long, short) } else { (short, long) };
         // the receiver sits inside a parent with a margin (stride > width) two times out of three
         let (mc, mr) = if rng.chance(66) { (1 + rng.below(2), rng.below(2)) } else { (0, 0) };
         let (pc, pr) = (nc + 2 * mc, nr + 2 * mr);
         let line = rng.below(if by_row { nr } else { nc });
-        let stable = rng.chance(60);
+        let stable = huge || rng.chance(60);
         let form = ["cmp", "key", "ord"][rng.below(3)];
         if !by_row && !stable && form == "ord" {
             continue; // no such variant
         }
         let nkeys = 2 + rng.below(2);
-        let ids: Vec<u32> = (0..(pc * pr) as u32).map(|i| 3 * (i + 1) + rng.below(nkeys) as u32).collect();
+        let mut ids: Vec<u32> = (0..(pc * pr) as u32).map(|i| 3 * (i + 1) + rng.below(nkeys) as u32).collect();
+        // structured key lines: adaptive sorts / "already sorted" shortcuts behave differently on them
+        let pattern = rng.below(8);
+        if pattern >= 3 {
+            let n = if by_row { nc } else { nr };
+            let mut keys: Vec<u32> = (0..n).map(|i| ((i * 3) / n.max(1)) as u32).collect(); // non-decreasing 0..2
+            match pattern {
+                3 => {}
+                4 => keys.reverse(),
+                5 => { let k = rng.below(3) as u32; if let Some(l) = keys.last_mut() { *l = k; } }          // sorted prefix + one appended
+                6 => { for _ in 0..(1 + rng.below(3)) { let (a, b) = (rng.below(n), rng.below(n)); keys.swap(a, b); } } // nearly sorted
+                _ => { for k in keys.iter_mut() { *k = 1; } }                                              // all equal
+            }
+            for i in 0..n {
+                let (x, y) = if by_row { (mc + i, mr + line) } else { (mc + line, mr + i) };
+                let idx = y * pc + x;
+                ids[idx] = ids[idx] / 3 * 3 + keys[i];
+            }
+        }
         let mut parent: TooDee<K32> = TooDee::from_vec(pc, pr, ids.iter().map(|&i| K32(i)).collect());
         let before_parent: Vec<u32> = parent.data().iter().map(|e| e.0).collect();
         let window = |t: &TooDee<K32>| -> Vec<u32> {
